@@ -128,21 +128,6 @@ def add_step(rep, F, tag):
     R = rep.rule('C07.R4', 'add_step moves x, s, z, tau, kappa with the same alpha')
 
     def body():
-        f = F.one(name='add_step', adt='DefaultVariables')
-        calls = []
-        st = {}
-        for val, ret, ev, tr in Walker(f).leaves():
-            for e in ev:
-                if e[0] == 'call':
-                    calls.append(e[2])
-                if e[0] == 'store':
-                    st[e[1]] = e[2]
-        for v in ('x', 's', 'z'):
-            R.check('axpby(self.%s, arg3, arg2.%s, one())' % (v, v) in calls, 'vec|%s%s' % (v, tag),
-                    'add_step does not perform %s += alpha*step.%s' % (v, v), f.loc())
-        for v in ('τ', 'κ'):
-            ok = ('add_assign(self.%s, mul(arg3, arg2.%s))' % (v, v) in calls) or st.get('self.' + v) == 'add(self.%s, mul(arg3, arg2.%s))' % (v, v)
-            R.check(ok, 'scalar|%s%s' % (v, tag), 'add_step does not perform %s += alpha*step.%s' % (v, v), f.loc())
         s = shared.solve_fn(F)
         c = one_call(s, 'add_step')
         a = [canon(s.sym_operand(x)) for x in c.args]
@@ -160,3 +145,6 @@ def run(ctx, rep, tier):
         calc_step_length(rep, F, tag)
         steplen.cone_step_lengths(rep, F, E, tag, 'C07.R2c')
         add_step(rep, F, tag)
+    from . import units_rules
+    R = rep.rule('C07.R4', 'add_step moves x, s, z, tau, kappa with the same alpha')
+    R.guard(lambda: units_rules.add_step_units(R, ctx, 'default', ''))
